@@ -297,6 +297,9 @@ def oracles (prev s : St) (impl : List (String × String)) (prevDials : Nat := 0
   -- the same event read as C04 (status not truthful) and C05 (missing files trusted)
   let c01a := c01a ++ (c01a.map fun v => v.replace "C01 bit-without-verified-data" "C05 bit-for-data-not-on-disk")
                    ++ (c01a.map fun v => v.replace "C01 bit-without-verified-data" "C04 reported-piece-not-on-disk")
+                   -- C03: a piece the client has not verified is announced to peers and served on request
+                   ++ ((c01a.filter fun v => v.endsWith "recorded-hash-never-matched").map fun v =>
+                        v.replace "C01 bit-without-verified-data" "C03 unverified-piece-offered-to-peers")
   -- C01: a storage write must carry verified bytes
   let c01b := (commaList (get "sto")).filterMap fun c =>
     if c.startsWith "write:" && !c.endsWith ":ok" then some s!"C01 unverified-bytes-written call={c}" else none
